@@ -10,6 +10,9 @@
 
 #include "IO/ProgramOptions.hpp"
 
+#include <iomanip>
+#include <limits>
+
 vfps::ProgramOptions::ProgramOptions() :
     _configfile("default.cfg"),
     I_b({3e-3f}),
@@ -429,12 +432,18 @@ void vfps::ProgramOptions::save(std::string fname)
             continue;
         } else
         if (!it->second.value().empty()) {
+            // floating point values are written with max_digits10 significant
+            // digits, so that reading the file back gives exactly the same value
             if (it->second.value().type() == typeid(float)) {
                 ofs << it->first << '='
+                    << std::setprecision(
+                           std::numeric_limits<float>::max_digits10)
                     << _vm[it->first].as<float>()
                     << std::endl;
             } else if (it->second.value().type() == typeid(double)) {
                 ofs << it->first << '='
+                    << std::setprecision(
+                           std::numeric_limits<double>::max_digits10)
                     << _vm[it->first].as<double>()
                     << std::endl;
             } else if (it->second.value().type() == typeid(int32_t)) {
@@ -457,7 +466,10 @@ void vfps::ProgramOptions::save(std::string fname)
                        == typeid(std::vector<integral_t>)) {
                 // one line per value (a config file accumulates repeated keys)
                 for (auto v : _vm[it->first].as<std::vector<integral_t>>()) {
-                    ofs << it->first << '=' << v << std::endl;
+                    ofs << it->first << '='
+                        << std::setprecision(
+                               std::numeric_limits<integral_t>::max_digits10)
+                        << v << std::endl;
                 }
             } else {
                 std::string val;
